@@ -262,6 +262,47 @@ def svcOp (ws : List String) : Option String := do
   let tr := run.trace.map fun e => s!"{tierName e.1}@{Hex.encode e.2.user}@{e.2.level}"
   pure s!"trace={showList tr} out={showOut run.out}"
 
+/-! ### routers as the tiers of a ServiceSet (fall-through after Miss)
+
+`chain d1=<tag|-> d2=.. d3=.. r1=<regs> r2=<regs> r3=<regs> reqs=..`: Resource, Guest and User
+are three routers (default handler `d<i>`); handlers with tags 70..79 return Miss, all others
+nil.  Answer per request: the handlers invoked, in order, as `<i|d|n><tag>@<rel>@<pos>@<relroute>`
+joined by `|` (`-` if none), then `>` and the outcome. -/
+
+def chainHandlers (h : Nat) : Svc UInt8 := fun c => (if 70 ≤ h ∧ h < 80 then .miss else .ok, c)
+
+def hasHandler : Served Nat UInt8 → Bool
+  | .index .. | .dflt .. | .node .. => true
+  | _ => false
+
+def chainWalk : List (Router Nat UInt8) → Ctx UInt8 → List String
+  | [], _ => []
+  | r :: rest, c =>
+    let d := r.serve c
+    let here := if hasHandler d then [showServedRR d] else []
+    let o := r.svc chainHandlers c
+    if o.1 ≠ .miss then here else here ++ chainWalk rest o.2
+
+def chainOp (ws : List String) : Option String := do
+  let d1 ← (kv ws "d1").bind optTag
+  let d2 ← (kv ws "d2").bind optTag
+  let d3 ← (kv ws "d3").bind optTag
+  let r1 ← (kv ws "r1").bind parseRouterRegs
+  let r2 ← (kv ws "r2").bind parseRouterRegs
+  let r3 ← (kv ws "r3").bind parseRouterRegs
+  let qs ← (kv ws "reqs").bind parseReqs
+  let rs := [(buildRouter none d1 r1).1, (buildRouter none d2 r2).1, (buildRouter none d3 r3).1]
+  let svcs := rs.map fun r => r.svc chainHandlers
+  let s : ServiceSet UInt8 :=
+    { auth := some ⟨fun c => (.miss, c), fun c => (none, c)⟩,
+      resource := svcs[0]?, guest := svcs[1]?, user := svcs[2]? }
+  let outs := qs.map fun q =>
+    let c : Ctx UInt8 := { (Ctx.new slash q.2.1 q.1 []).shift q.2.2 with user := [117] }
+    let inv := chainWalk rs c
+    let invS := if inv.isEmpty then "-" else "|".intercalate inv
+    s!"{invS}>{showOut (s.serve c).out}"
+  pure s!"serve={showList outs}"
+
 /-! ### host mux -/
 
 def hostOp (sets reqs : String) : Option String := do
@@ -307,6 +348,7 @@ def step (_ : Unit) (line : String) : Unit × String :=
       let r ← kv rest "regs"
       let q ← kv rest "reqs"
       nestOp m o i d r q
+    | "chain" :: rest => chainOp rest
     | "svc" :: rest => svcOp rest
     | "host" :: rest => do
       let s ← kv rest "sets"
